@@ -130,6 +130,7 @@ FIXED = [
     ("fix: a row-set that can not be opened is isolated", "C18", "any byte of 0_3/0.idx altered: Database::new_on_disk panicked, table b (not affected) unreadable too (3 648 enumerated cases, the known finding KF-C18-database-does-not-open_idx until repaired)"),
     ("fix: a left or full outer merge join is not ordered", "C01", "db pkpk:mix:mix, disk: `select t2.a, t2.c, t1.a from t2 left join t1 on t2.a = t1.a order by t1.a` came back unsorted with the optimizer (sort removed above a LEFT/FULL OUTER merge join; 18 cases)"),
     ("fix: a plan class is ordered only by what all", "C01", "db pkpk:dup:high, disk, statistics t1big: `.. from t2 right join t1 on t2.a = t1.a order by t1.a` unsorted: the sort was removed because the class contains a merge join, the hash join was extracted (4 cases; hazard pointed out by a seeding agent)"),
+    ("fix: a DOUBLE that is infinite, NaN or beyond the range of DECIMAL", "C14", "table fd(d double, e decimal): `select i, d > e from fd` with d = 1e300 panicked (Decimal::from_f64_retain(..).unwrap()), likewise `cast(d * d as decimal)`; pointed out by a seeding agent"),
     ("fix: nullable block iterator keeps the validity", "C06", "int16 nullable plain, block 32, 81-row pattern, script [next(1), next(7)]: a batch spanning a block boundary lost rows / reported wrong row ids (155 050 cases)"),
 ]
 
